@@ -43,6 +43,13 @@ func isFalsey(v value) bool {
 	}
 }
 
+// isComparable tells whether == can be applied; a block value
+// (a field holding a nested block) can not.
+func isComparable(v value) bool {
+	_, isBlock := v.(Block)
+	return !isBlock
+}
+
 func isTruthy(v value) bool { return !isFalsey(v) }
 
 func vtype(v value) string {
